@@ -293,6 +293,12 @@ func genC10(p *plan.Plan, r *plan.Rng, tier string) {
 	// types: a few shared by all tasks (first use races), mostly generated ones
 	shared := []string{fmt.Sprintf("G%04d", r.Intn(len(genTypes))), fmt.Sprintf("G%04d", r.Intn(len(genTypes))), pickType(r, encodeTypes),
 		reflectTypeNames[r.Intn(len(reflectTypeNames))], reflectTypeNames[r.Intn(len(reflectTypeNames))]}
+	if r.Chance(1, 3) {
+		// callback-bearing types: the callbacks are scheduling seams, so calls
+		// on the same type overlap while user code holds what the library lent it
+		cb := []string{"UJ", "WithUCB", "SliceUJ", "MapStrUJ", "UT", "MT", "WithCB", "MJ", "SliceMJ", "MapMTInt", "UJC", "MJC", "WithQ"}
+		shared = []string{cb[r.Intn(len(cb))], cb[r.Intn(len(cb))], shared[0]}
+	}
 	for i := 0; i < n; i++ {
 		s := plan.Session{ID: id("t")}
 		for k := r.Range(1, 5); k > 0; k-- {
